@@ -41,6 +41,12 @@ def is_const_expr(n, known):
         return True  # a dispatch table
     if isinstance(n, ast.Call) and ast.unparse(n.func) in ("np.dtype", "numpy.dtype") and len(n.args) == 1 and isinstance(n.args[0], ast.Constant):
         return True
+    if isinstance(n, ast.Call) and ast.unparse(n.func) in ("attrgetter", "operator.attrgetter", "itemgetter", "operator.itemgetter", "struct.Struct", "Struct") \
+            and len(n.args) == 1 and isinstance(n.args[0], ast.Constant) and not n.keywords:
+        return True
+    if isinstance(n, ast.Call) and ast.unparse(n.func) in ("partial", "functools.partial") and n.args and isinstance(n.args[0], ast.Attribute) and isinstance(n.args[0].value, ast.Name) \
+            and n.args[0].value.id in ("np", "numpy") and not n.args[1:] and all(isinstance(k.value, ast.Constant) for k in n.keywords):
+        return True  # partial(np.allclose, equal_nan=True)
     return False
 
 
@@ -193,6 +199,36 @@ def strip_doc(body):
     return body
 
 
+def simple_generator(body):
+    """[assignments.., Return(<generator expression>)] for a generator body  `a = ..; for x in X: [for/if ..:] yield E`, else None"""
+    pre = []
+    rest = list(body)
+    while rest and isinstance(rest[0], ast.Assign) and len(rest[0].targets) == 1 and isinstance(rest[0].targets[0], ast.Name):
+        pre.append(rest.pop(0))
+    if len(rest) != 1 or not isinstance(rest[0], ast.For):
+        return None
+    gens = []
+    cur = rest[0]
+    while True:
+        if isinstance(cur, ast.For) and not cur.orelse and len(cur.body) == 1:
+            gens.append(ast.comprehension(target=cur.target, iter=cur.iter, ifs=[], is_async=0))
+            cur = cur.body[0]
+        elif isinstance(cur, ast.If) and not cur.orelse and len(cur.body) == 1 and gens:
+            gens[-1].ifs.append(cur.test)
+            cur = cur.body[0]
+        elif isinstance(cur, ast.Expr) and isinstance(cur.value, ast.Yield) and cur.value.value is not None and gens:
+            elt = cur.value.value
+            break
+        else:
+            return None
+    if any(isinstance(n, (ast.Yield, ast.YieldFrom)) for st in pre for n in ast.walk(st)):
+        return None
+    ret = ast.Return(value=ast.GeneratorExp(elt=elt, generators=gens))
+    ast.copy_location(ret, rest[0])
+    ast.fix_missing_locations(ret)
+    return pre + [ret]
+
+
 class Helper:
     def __init__(self, node, cls, kind):
         self.node, self.cls, self.kind = node, cls, kind
@@ -206,6 +242,10 @@ class Helper:
                 self.defaults[p.arg] = d
         self.vararg = a.vararg is not None or a.kwarg is not None
         self.body = strip_doc(node.body)
+        g = simple_generator(self.body)
+        if g is not None:
+            # a generator function that is one loop nest around a single `yield E` denotes the generator expression (E for ..)
+            self.body = g
         self.self_param = self.params[0] if kind in ("method", "classmethod") and self.params else None
         self.value_params = self.params[1:] if self.self_param else self.params
 
@@ -247,7 +287,8 @@ def collect_helpers(tree: ast.Module):
             k = kind_of(st, False)
             if k:
                 h = Helper(st, None, k)
-                if not h.vararg and not h.recursive() and not any(isinstance(n, (ast.Yield, ast.YieldFrom, ast.Global, ast.Nonlocal)) for n in ast.walk(st)):
+                if not h.vararg and not h.recursive() and not any(isinstance(n, (ast.Global, ast.Nonlocal)) for n in ast.walk(st)) \
+                        and (not any(isinstance(n, (ast.Yield, ast.YieldFrom)) for n in ast.walk(st)) or simple_generator(strip_doc(st.body)) is not None):
                     out[(None, st.name)] = h
         elif isinstance(st, ast.ClassDef):
             for s in st.body:
@@ -255,7 +296,8 @@ def collect_helpers(tree: ast.Module):
                     k = kind_of(s, True)
                     if k:
                         h = Helper(s, st.name, k)
-                        if not h.vararg and not h.recursive() and not any(isinstance(n, (ast.Yield, ast.YieldFrom, ast.Global, ast.Nonlocal)) for n in ast.walk(s)):
+                        if not h.vararg and not h.recursive() and not any(isinstance(n, (ast.Global, ast.Nonlocal)) for n in ast.walk(s)) \
+                                and (not any(isinstance(n, (ast.Yield, ast.YieldFrom)) for n in ast.walk(s)) or simple_generator(strip_doc(s.body)) is not None):
                             out[(st.name, s.name)] = h
     return out
 
@@ -502,8 +544,9 @@ class Inliner:
                         self.failed_sites[key] = self.failed_sites.get(key, 0) + 1
                 # a statement helper called inside a simple statement whose other calls all enclose it (nothing is evaluated
                 # before it that could observe the difference): bind its result first, then inline that binding
-                if isinstance(st, (ast.Expr, ast.Assign, ast.Return, ast.AugAssign)) and st.value is not None:
-                    root = st.value
+                root_field = "value" if isinstance(st, (ast.Expr, ast.Assign, ast.Return, ast.AugAssign)) else ("iter" if isinstance(st, ast.For) else ("test" if isinstance(st, ast.If) else None))
+                if root_field is not None and getattr(st, root_field) is not None:
+                    root = getattr(st, root_field)
                     from .normalize2 import eval_order
                     hc = [n for n in eval_order(root) if isinstance(n, ast.Call) and self.lookup(n, cur_cls)[0] is not None
                           and not self.lookup(n, cur_cls)[0].is_expr and self.lookup(n, cur_cls)[0].node is not fn]
@@ -527,14 +570,14 @@ class Inliner:
                                     return ast.copy_location(ast.Name(id=tmp.id, ctx=ast.Load()), n)
                                 self.generic_visit(n)
                                 return n
-                        st.value = Rep0().visit(st.value)
-                        root = st.value
+                        setattr(st, root_field, Rep0().visit(getattr(st, root_field)))
+                        root = getattr(st, root_field)
                         out += pre2 + new
                         key = (h.cls, h.node.name)
                         self.inlined_sites[key] = self.inlined_sites.get(key, 0) + 1
                         changed = True
                         hc = hc[1:]
-                    if len(hc) == 1 and hc[0] is not root:
+                    if len(hc) == 1 and (hc[0] is not root or root_field in ("iter", "test")):
                         target_call = hc[0]
                         others = [n for n in ast.walk(root) if isinstance(n, ast.Call) and n is not target_call]
                         encloses = lambda outer: any(x is target_call for x in ast.walk(outer))
@@ -551,7 +594,7 @@ class Inliner:
                                             return ast.copy_location(ast.Name(id=tmp.id, ctx=ast.Load()), n)
                                         self.generic_visit(n)
                                         return n
-                                st.value = Rep().visit(st.value)
+                                setattr(st, root_field, Rep().visit(getattr(st, root_field)))
                                 out += pre2 + new
                                 self.inlined_sites[key] = self.inlined_sites.get(key, 0) + 1
                                 changed = True
@@ -788,7 +831,8 @@ def normalise_module(tree: ast.Module):
 
 # ------------------------------------------------------------------------------------------- N5 local copy propagation
 PURE_CALLS = {"len", "any", "all", "isinstance", "range", "enumerate", "min", "max", "sum", "int", "abs", "tuple", "hasattr", "bool", "str", "float",
-              "np.dtype", "numpy.dtype", "zip", "sorted", "reversed", "type", "slice", "nullcontext", "contextlib.nullcontext", "frozenset", "set", "list"}
+              "np.dtype", "numpy.dtype", "zip", "sorted", "reversed", "type", "slice", "nullcontext", "contextlib.nullcontext", "frozenset", "set", "list",
+              "partial", "functools.partial", "attrgetter", "operator.attrgetter", "itemgetter", "operator.itemgetter"}
 
 
 # read-only AND not raising on well-typed receivers (a call that can raise is not moved: its handler may differ at the use site)
@@ -1508,6 +1552,11 @@ class Canon(ast.NodeTransformer):
 
     def visit_Subscript(self, node):
         self.generic_visit(node)
+        # {True: A, False: B}[c]  ==>  A if c else B
+        if isinstance(node.value, ast.Dict) and len(node.value.keys) == 2 and all(isinstance(k, ast.Constant) and isinstance(k.value, bool) for k in node.value.keys) \
+                and {k.value for k in node.value.keys} == {True, False} and isinstance(node.ctx, ast.Load):
+            d = {k.value: v for k, v in zip(node.value.keys, node.value.values)}
+            return ast.copy_location(ast.IfExp(test=node.slice, body=d[True], orelse=d[False]), node)
         # X[slice(a, b)]  ==>  X[a:b]
         sl = node.slice
         if isinstance(sl, ast.Call) and isinstance(sl.func, ast.Name) and sl.func.id == "slice" and not sl.keywords and 1 <= len(sl.args) <= 3:
@@ -1536,6 +1585,21 @@ class Canon(ast.NodeTransformer):
                 return ast.copy_location(ast.If(test=test, body=[rs], orelse=[]), node)
         # for v in [E for x in IT if c]: body   ==>   for x in IT: if c: v = E; body        (E free of impure calls)
         itc = node.iter
+        if isinstance(itc, (ast.ListComp, ast.GeneratorExp)) and len(itc.generators) > 1 and not node.orelse and _pure_expr(itc.elt) \
+                and all(_pure_expr(c) for g_ in itc.generators for c in g_.ifs) and all(_pure_expr(g_.iter) for g_ in itc.generators[1:]):
+            # (E for a in A for b in B) : the outer generators become outer loops
+            inner = type(itc)(elt=itc.elt, generators=itc.generators[1:])
+            g0 = itc.generators[0]
+            tgt0 = copy.deepcopy(g0.target)
+            for x in ast.walk(tgt0):
+                if isinstance(x, (ast.Name, ast.Tuple, ast.List)):
+                    x.ctx = ast.Store()
+            inner_for = self.visit_For(ast.copy_location(ast.For(target=node.target, iter=inner, body=node.body, orelse=[], type_comment=None), node))
+            body0 = inner_for if isinstance(inner_for, list) else [inner_for]
+            if g0.ifs:
+                test = g0.ifs[0] if len(g0.ifs) == 1 else ast.BoolOp(op=ast.And(), values=g0.ifs)
+                body0 = [ast.copy_location(ast.If(test=test, body=body0, orelse=[]), node)]
+            return ast.copy_location(ast.For(target=tgt0, iter=g0.iter, body=body0, orelse=[], type_comment=None), node)
         if isinstance(itc, (ast.ListComp, ast.GeneratorExp)) and len(itc.generators) == 1 and not node.orelse and _pure_expr(itc.elt) \
                 and all(_pure_expr(c) for c in itc.generators[0].ifs):
             g = itc.generators[0]
